@@ -29,8 +29,8 @@ TRUSTED = [
 ASSUMPTIONS = ["integer-millisecond clock",
                "a querier is a source sockaddr (address AND port): the two behaviours of the unchanged tree that contradict this reading are reported as known findings "
                "(D35: identical bytes from another source within 1 s are dropped; D36: a held truncated packet and a plain query from two ports of one address are merged)",
-               "`async_remove_answers` (unregistration while answers are queued) is not in the Reply model: after an unregistration inside a scenario, queue flushes are "
-               "compared on the answers that were not withdrawn (additionals not at all); the oracle still demands the remaining answers within 1.2 s",
+               "the registry is never empty while queries arrive (`registry.has_entries`, tested before the deferral of a truncated packet, is outside the Reply model)",
+               "1..12 questions per query; the receiving socket is one of `engine.senders` (no separate listen socket); queries arrive at least 1.2 s after registration",
                "replies of any size: the datagrams of one `async_send` call are taken together at the logical level, judged one by one by the oracle and compared byte for "
                "byte with the model's encoder output (10..40 services: replies of 2..8 datagrams)",
                "one flowinfo/scope id per link-local peer address within a scenario (two peers with the same address text on different scopes are not generated)",
@@ -270,7 +270,7 @@ class V6Loopback:
         vsim.FakeTransport.sendto = self.orig
 
 
-MODES = ["classic"] * 10 + ["big"] * 3 + ["twin"] * 2 + ["ports"] * 2 + ["update"] * 2 + ["unregister"] * 2 + ["v6own"] * 1 + ["retrans"] * 2
+MODES = ["classic"] * 10 + ["big"] * 3 + ["twin"] * 2 + ["ports"] * 2 + ["update"] * 2 + ["unregister"] * 2 + ["v6own"] * 1 + ["retrans"] * 2 + ["many"] * 2
 
 
 def make_big_infos(xr):
@@ -437,6 +437,10 @@ def run_scenario(seed, sc_no, mode=None):
             rx_tr.protocol.datagram_received(data, src)
 
         def peer(ip4, ip6, port):
+            if xr.random() < 0.12:
+                # a resolver on the responder's own machine: the source is the receiving socket's own address (third review, X40)
+                own_ = host.socks[rx_i].getsockname()
+                return (own_[0], port) + tuple(own_[2:])
             if rx_v6 and ip6 == "fe80::9" and xr.random() < 0.25:
                 ip6 = xr.choice(["2001:db8::9", "::ffff:10.0.0.9"])
             return ((ip6, port) + v6peer[ip6]) if rx_v6 else (ip4, port)
@@ -595,6 +599,29 @@ def run_scenario(seed, sc_no, mode=None):
                     await sim.sleep_ms(xr.choice([600, 900, 900, 950, xr.randint(600, 950)]))
                 deliver(data, src, family="retransmission", copy=k_)
             await sim.sleep_ms(1500)
+        if mode == "many":
+            # third review: X50 -- queries of 5..12 questions (any mix of QU / QM, repeats of a question included); X3 -- truncated trains
+            # one of whose packets is a probe (authority section), first or last: the train is a probe, answered at once
+            pool = R.question_pool(infos)
+            for k_ in range(xr.choice([1, 2, 3])):
+                await sim.sleep_ms(xr.choice([0, 1, 130, 1001, 1300, 2500]))
+                port = xr.choice([5353, 5353, 40000, 65535, 5354])
+                if xr.random() < 0.5:
+                    nq = xr.choice([5, 5, 6, 8, 12])
+                    questions = [xr.choice(pool[:len(pool) - 4]) if xr.random() < 0.9 else xr.choice(pool) for _ in range(nq)]
+                    data, _q, _u = R.build_query(xr, infos, uni, xr.choice([0, 1, 0x1234]), questions=questions, qus=[xr.random() < 0.4 for _ in range(nq)],
+                                                 probe=xr.random() < 0.2, known_p=0.1)
+                    deliver(data, peer(xr.choice(["10.0.0.9", "10.0.0.8"]), "fe80::9", port), family="many-questions")
+                else:
+                    src = peer("10.0.0.9", "fe80::9", port)
+                    probe_first = xr.random() < 0.5
+                    d1, _q, _u = R.build_query(xr, infos, uni, 21, nq=xr.choice([1, 2]), qu_p=0.4, tc=True, probe=probe_first, known_p=0.3)
+                    d2, _q, _u = R.build_query(xr, infos, uni, 22, nq=xr.choice([1, 1, 2]), qu_p=0.4, tc=False, probe=not probe_first, known_p=0.3)
+                    deliver(d1, src, family="probe-train", train=0)
+                    if xr.random() < 0.75:
+                        await sim.sleep_ms(xr.choice([0, 1, 30, 100]))
+                        deliver(d2, src, family="probe-train", train=1)
+                    await sim.sleep_ms(600)
         if mode == "twin":
             # second review, 1(a): the same bytes from two different resolvers (legacy source ports, no QU question) within a second --
             # each of them is owed its own unicast reply; and the control: a true repeat (same sockaddr), which C16 wants dropped
@@ -719,6 +746,7 @@ def check_trace_O(res, box, case):
     socks = box["socks"]
     rx_sock = box["lis"].transport.transport.sock
     later_mcast = []
+    routed_later = []     # (time of an answering block, the records its routing puts into a queue -- None: unknown, anything may follow)
     # which datagrams each reply must be based on (delivered trains, judged from the input: `c12.tc_pass`; its own verdicts are C12's)
     from . import c12 as _c12
     lis_blocks = [b for b in tr.blocks if b["kind"] == "qf" or b.get("lis") is box["lis"]]
@@ -794,6 +822,15 @@ def check_trace_O(res, box, case):
                         res.violate("C11:unicast-format", "unicast reply datagram with flags %#x (response + authoritative = 0x8400 expected)" % flags, at)
                     if o["sock"] is not rx_sock and mine:
                         res.violate("C11:unicast-socket", "unicast reply (block %s) not sent on the receiving socket" % b["kind"], at)
+        # ---- a queue flush sends only what some query's routing put into a queue (third review, X4: "by unicast alone" also holds 20 ms later):
+        #      every ANSWER of the batch was routed "multicast later" by an answering block at most 1.2 s ago (additionals are not judged)
+        if b["kind"] == "qf":
+            for g in groups:
+                for rid in sorted(set().union(*[set(o["ans"]) for o in g["outs"]]) if g["outs"] else set()):
+                    owed_by = [t_ for (t_, el_) in routed_later if t_ <= b["t"] <= t_ + 1200 and (el_ is None or rid in el_)]
+                    if not owed_by:
+                        res.violate("C11:unowed-multicast", "a queue flush multicasts %s, which no query of the last 1.2 s was routed to a queue for "
+                                    "(unicast alone / multicast at once / not asked)" % uni.describe(rid), at)
         # ---- a query that is not answered at all
         if b["kind"] == "rx" and mine and b.get("parsed") and not b["asm"] and not (b["parsed"]["flags"] & 0x200):
             pkt = b["parsed"]
@@ -833,48 +870,43 @@ def check_trace_O(res, box, case):
         # ---- a query that is answered: routing, destination, id, question echo -- one datagram or a truncated train, receive or timer block
         if b["asm"] and mine and b["kind"] in ("rx", "tc"):
             asm = b["asm"]
+            if asm.get("last_now") is None:      # an assembly of no packets at all (only a defective tree does that): judged like any other
+                asm = dict(asm, last_now=b["t"], first_now=b["t"])
             port = asm["port"]
             ucast = [g for g in groups if not g["mcast"]]
             mnow = [g for g in groups if g["mcast"]]
-            impl_srcs = sorted({(src_of[d][0], src_of[d][1]) for d in asm["datas"] if d in src_of})
+            # this block's querier (address and port) and, third review, the INPUT class of finding D36: truncated datagrams from another
+            # source port of the SAME address are being held right now
+            q_ip = b["src"][0] if b["kind"] == "rx" else b["addr"]
+            sibling_held = [d for (k_, ds_) in held.items() if k_[0] == q_ip and k_[1] != port for d in ds_]
             for key_ in list(held):     # whatever this reply was based on is not waiting any more, whoever sent it
                 held[key_] = [d for d in held[key_] if d not in asm["datas"]]
                 if not held[key_]:
                     del held[key_]
-            if len(impl_srcs) > 1:
-                # second review 1(b): datagrams of different (address, port) sources taken for one query -- a finding; nothing else is judged
+            datas = own or b.get("want") or asm["datas"]
+            if own is not None:
+                datas = own
+            merged = [d for d in asm["datas"] if d in sibling_held]
+            if merged and set(asm["datas"]) <= set(own or []) | set(sibling_held):
+                # finding D36, decided from the input: the held datagrams of the same address' other port(s) were answered together with
+                # this querier's.  The finding is that merge and nothing else: the rest of the block is judged for the merged query
                 f_ = parsed_by_data.get(asm["datas"][0])
                 res.violate("C11:held-tc-merged-with-other-port",
-                            "datagrams from different sources %s (one address, different source ports) were answered as one query: the reply goes to %s "
-                            "with id %s; the other querier gets nothing" % (impl_srcs, [o["to_full"] for g in ucast for o in g["outs"]][:1],
-                                                                           f_["id"] if f_ else "?"), at)
-                continue
-            datas = own or b.get("want") or asm["datas"]
+                            "datagrams from different source ports of one address %s were answered as one query: the reply goes to %s with id %s; the "
+                            "other querier gets nothing" % (sorted({(src_of[d][0], src_of[d][1]) for d in asm["datas"] if d in src_of}),
+                                                           [o["to_full"] for g in ucast for o in g["outs"]][:1], f_["id"] if f_ else "?"), at)
+                datas = asm["datas"]
             pkts = [parsed_by_data.get(d) for d in datas]
             if not pkts or any(p is None for p in pkts):
+                routed_later.append((b["t"], None))
                 continue
             first = pkts[0]
-            srcs = {src_of.get(d) for d in datas}
-            src_full = next(iter(srcs)) if len(srcs) == 1 else None
+            # the reply goes to the querier of this block: the source of the datagram at hand, or of the held train the timer fires for
+            src_full = b["src_full"] if b["kind"] == "rx" else (src_of.get(own[-1]) if own else None)
             eu, em, el, dontcare = spec_routes(asm, pkts)
             got_u = set().union(*[set(o["ans"]) for g in ucast for o in g["outs"]]) if ucast else set()
             got_m = set().union(*[set(o["ans"]) for g in mnow for o in g["outs"]]) if mnow else set()
             probe = any(p["num_auth"] > 0 for p in pkts)
-            if ((got_u - dontcare) != (eu - dontcare) or (got_m - dontcare) != (em - dontcare)) and asm.get("seen_blind") != asm["seen"]:
-                # finding D29: the code looks its own (scope-less) address record up in a cache that holds it with the scope id of the
-                # IPv6 socket it was heard on.  If the routing is what the property demands for the code's own view of "seen", and the
-                # records that differ are exactly such address records, it is that finding and nothing else
-                su, sm, sl, _dc = spec_routes(asm, pkts, view="seen")
-                scoped = {i for (i, _c, _t) in asm["seen_blind"]} - {i for (i, _c, _t) in asm["seen"]}
-                diff = ((got_u ^ eu) | (got_m ^ em)) - dontcare
-                if (got_u - dontcare) == (su - dontcare) and (got_m - dontcare) == (sm - dontcare) and diff and diff <= scoped:
-                    res.violate("C11:scoped-aaaa-not-recognised-as-seen",
-                                "%s: multicast %s ms ago and heard back on this IPv6 socket, hence cached with scope id -- the look-up with the host's own "
-                                "record (no scope id) misses it: unicast %s / multicast at once %s, the property routes unicast %s / multicast %s" % (
-                                    sorted(uni.describe(i) for i in diff), sorted({asm["last_now"] - c for (i, c, _t) in asm["seen_blind"] if i in diff}),
-                                    sorted(uni.describe(i) for i in got_u)[:6], sorted(uni.describe(i) for i in got_m)[:6],
-                                    sorted(uni.describe(i) for i in eu)[:6], sorted(uni.describe(i) for i in em)[:6]), at)
-                    eu, em, el = su, sm, sl
             if (got_u - dontcare) != (eu - dontcare):
                 res.violate("C11:unicast-set", "unicast answers %s, the property routes %s there (port %d, probe %s, %d datagram(s))" % (
                     sorted(uni.describe(i) for i in got_u)[:8], sorted(uni.describe(i) for i in eu)[:8], port, probe, len(pkts)), at)
@@ -882,6 +914,7 @@ def check_trace_O(res, box, case):
                 res.violate("C11:multicast-now-set", "multicast at once %s, the property routes %s there (port %d, probe %s, %d datagram(s))" % (
                     sorted(uni.describe(i) for i in got_m)[:8], sorted(uni.describe(i) for i in em)[:8], port, probe, len(pkts)), at)
             b["expect_later"] = el - dontcare
+            routed_later.append((b["t"], el | dontcare))
             if len(ucast) > 1:
                 res.violate("C11:unicast-destination", "%d unicast replies for one query" % len(ucast), at)
             for g in ucast:
@@ -990,46 +1023,6 @@ def world_str(box, tr, blocks):
     return " ".join(parts)
 
 
-def strip_obs(obs, gone):
-    """a logical observation with the withdrawn records taken out of every multicast's answers and its additionals dropped; a multicast
-    left without answers disappears"""
-    outs, draws = obs.split(" ", 1)
-    keep = []
-    items = [] if outs == "-" else _split_outs(outs)
-    for it in items:
-        if it.startswith("m:"):
-            ans = [x for x in it.split(":")[1].split(",") if x != "-" and int(x) not in gone]
-            if ans:
-                keep.append("m:%s:*" % ",".join(ans))
-        else:
-            keep.append(it)
-    return "%s %s" % (",".join(sorted(keep)) or "-", draws)
-
-
-def _split_outs(outs):
-    """the descriptors of `block_obs11` (comma-separated, and commas occur inside them): split at the `m:` / `u:` heads"""
-    import re
-    idx = [m.start() for m in re.finditer(r"(?:^|,)(?=[mu]:)", outs)]
-    parts = []
-    for a, b_ in zip(idx, idx[1:] + [len(outs)]):
-        parts.append(outs[a:b_].strip(","))
-    return parts
-
-
-def strip_phys(phys, gone):
-    """the same for the physical descriptors: multicast datagrams (id 0 to a group address) keep their non-withdrawn answers only"""
-    keep = []
-    for it in ([] if phys == "-" else phys.split(" ")):
-        head, wid, flags, qs, ans, add = it.split("|")
-        if ">g4/" in head or ">g6/" in head:
-            left = [x for x in ans.split(",") if x != "-" and int(x.split(".")[0]) not in gone]
-            if left:
-                keep.append("|".join([head, wid, flags, qs, ",".join(left), "*"]))
-        else:
-            keep.append(it)
-    return " ".join(sorted(keep)) or "-"
-
-
 def block_obs11(tr, b):
     """the logical observation of a block in `c12run`'s format (`reply_common.block_obs`), with the datagrams of one reply
     (`DNSOutgoing.packets()` may split it) taken together: one descriptor per unicast reply / per multicast reply"""
@@ -1136,9 +1129,9 @@ def run_trace_stream(ctx, res, n, only=None):
         world = world_str(box, tr, kept)
         for b in kept:
             b["phys"] = block_phys(tr, box, b)
-        import zeroconf._handlers.query_handler as _qh
-        lines.append("c11net %s %s %s %d %s" % (C.b01(hasattr(_qh, "_without_scope_id")), C.b01(hasattr(_qh._QueryResponse, "_get_unique_ignoring_scope")),
-                                                world, len(evs), " ".join(evs)))
+        # the two flags say how the harness numbered known answers / took the "seen" snapshot: as the repaired responder does (D25, D29
+        # are in /repo); the driver refuses the trace if the translated leaves of the tree say otherwise
+        lines.append("c11net 1 1 %s %d %s" % (world, len(evs), " ".join(evs)))
         case0 = {"stream": "tr", "seed": seed, "scenario": sc_no, "mode": box["mode"]}
         # which datagrams each reply must be based on, judged from what was delivered (sets b["want"]; verdicts are C12's)
         from . import c12 as _c12
@@ -1183,16 +1176,6 @@ def run_trace_stream(ctx, res, n, only=None):
             mphys = [x.split(" ;; ")[1] if " ;; " in x else None for x in mboth]
             iobs = [b["obs"] for b in kept]
             iphys = [b["phys"] for b in kept]
-            if "withdrawn_at" in box:
-                # `async_remove_answers` (an unregistration while answers are queued) is not in the Reply model (C12's package adds it):
-                # from the unregistration on, multicasts are compared on their answers that were not withdrawn; additionals not at all
-                gone = box["withdrawn"]
-                for j, b in enumerate(kept):
-                    if b["t"] >= box["withdrawn_at"]:
-                        if j < len(mobs):
-                            mobs[j], iobs[j] = strip_obs(mobs[j], gone), strip_obs(iobs[j], gone)
-                        if j < len(mphys) and mphys[j] is not None:
-                            mphys[j], iphys[j] = strip_phys(mphys[j], gone), strip_phys(iphys[j], gone)
             if not head.startswith("ok") or mobs != iobs:
                 kk = next((j for j, (a, b) in enumerate(zip(mobs, iobs)) if a != b), min(len(mobs), len(iobs)))
                 res.disagree("c11run", dict(case, at_block=kk, at_ms=(kept[kk]["t"] - T0) if kk < len(kept) else None),
@@ -1222,10 +1205,12 @@ def run_trace_stream(ctx, res, n, only=None):
 def run(ctx):
     res = _Result("C11")
     res.rule = ("fmt: every record kind x class with/without top bit x multicast/unicast x ids {0,1,0xabcd,65535}; send: socket family x 6 address spellings; "
-                "tr: responder scenarios in six families -- classic (1..3 services), big (10..40 services of one type: split replies), twin (identical bytes from another "
+                "tr: responder scenarios in nine families -- classic (1..3 services), big (10..40 services of one type: split replies), twin (identical bytes from another "
                 "source sockaddr), ports (two source ports of one address around a held truncated packet), update (the only service updated), unregister (a sibling withdrawn "
-                "while answers are queued) -- TTLs 1..4500 s; socket layouts {4, 46, 64, 44, 446}, queries received on any one socket; 1..6 queries of 1..4 questions, QU/QM per "
-                "question, +/- authority section, any id, source ports {5353, 40000, 1, 65535, 5354}, cache pokes at ttl/4 -1/0/+1 ms and around 1 s); "
+                "while answers are queued), v6own (IPv6-only host hearing its own records), retrans (retransmission trains on a socket that hears no loop-back), many "
+                "(5..12 questions per query; truncated trains one of whose packets is a probe) -- TTLs 1..4500 s; socket layouts {4, 46, 64, 44, 446, 6, 66, 664}, queries "
+                "received on one socket per scenario; 1..6 queries of 1..12 questions, QU/QM per question, +/- authority section, any id, source ports {5353, 40000, 40001, 1, "
+                "65535, 5354}, sources incl. the receiving socket's own address, global and IPv4-mapped IPv6 addresses, cache pokes at ttl/4 -1/0/+1 ms and around 1 s); "
                 "per datagram compared with the model: socket, complete destination sockaddr (IPv6 flowinfo / scope id), id, flags, question section, raw class field of "
                 "every record (c11net), and the bytes (c11bytes: reply constructor + C01's encoder model); "
                 "non-trivial = distinct (port class, probe, QU/QM pattern, sockets, receiving family, kinds of datagrams emitted) with at least one reply")
